@@ -132,7 +132,7 @@ func runC12(c *Ctx, r *Rec) {
 		r.check(bad == "", "D1-diagnostic-has-token", construct, c.pos(fd.Pos()), "every failing return hands back a token assigned on all paths", bad)
 	}
 	r.count("parse methods with (token, ok) results", nD1)
-	r.floor("D1-diagnostic-has-token", 15)
+	r.floor("D1-diagnostic-has-token", 3)
 
 	// ---- D2 unchecked assertions
 	nA := 0
